@@ -5,11 +5,12 @@
 (* validated against the Pool discipline, event by event.  A run is one    *)
 (* schedule ("reset" starts it).  Events of goroutine g:                   *)
 (*   get(buf)          - allowed only on a buffer no running call owns;    *)
-(*   split(buf, vec)   - by the owner; slots 1..n := Split14(vec);         *)
-(*   read(buf, elem)   - by the owner, k <= n, and elem must be what slot k *)
-(*                       of THAT buffer holds in the model (a slot         *)
-(*                       overwritten by another call, or a stale slot,     *)
-(*                       shows here); feeds the parser automaton;          *)
+(*   split(buf, vec)   - by the owner; the call's vector is now known;      *)
+(*   read(buf, elem)   - by the owner, and elem must be a piece of the      *)
+(*                       call's OWN vector (a slot overwritten by another  *)
+(*                       call, or a stale slot, shows here) - how the      *)
+(*                       vector is cut and in which order the pieces are   *)
+(*                       read is left to the implementation;               *)
 (*   put(buf)          - by the owner; ownership ends;                     *)
 (*   ret(ok, obj)      - the call's result must be the automaton's.        *)
 (* Unexplained events are collected (line, reason) and printed.            *)
@@ -33,6 +34,15 @@ Owned(b) == b \in DOMAIN powner
 Mine(g, b) == Owned(b) /\ powner[b] = g
 CallOf(g) == IF g \in DOMAIN pcall THEN pcall[g] ELSE NoCall
 
+(* the pieces of a vector a split can legitimately hand to the loop: its "/"-separated parts and its    *)
+(* tails that start at a part boundary (the code keeps "the rest" in the last slot).  HOW the call cuts  *)
+(* its vector and in which order it reads the pieces is the implementation's business (a refactor may   *)
+(* change both); what the discipline forbids is reading a piece that is NOT of this call's own vector   *)
+(* - stale contents of the pooled buffer left by another call.                                          *)
+PiecesOf(vec) ==
+  LET P == <<0>> \o SepPos(vec, SLASH) \o <<Len(vec) + 1>>
+  IN  {SubSeq(vec, P[p[1]] + 1, P[p[2]] - 1) : p \in {q \in (1..(Len(P) - 1)) \X (2..Len(P)) : q[1] < q[2]}}
+
 Why(e) ==
   CASE e.ev = "reset" -> ""
     [] e.ev = "get" -> IF Owned(e.buf) THEN "buffer handed out while another call owns it" ELSE ""
@@ -40,8 +50,7 @@ Why(e) ==
     [] e.ev = "read" ->
          LET c == CallOf(e.g)
          IN  IF ~Mine(e.g, e.buf) THEN "read on a buffer the call does not own"
-             ELSE IF c.k > c.n THEN "read beyond the parts of this call"
-             ELSE IF e.buf \notin DOMAIN pslots \/ pslots[e.buf][c.k] # e.s THEN "element read is not what this call wrote into the slot"
+             ELSE IF e.s \notin PiecesOf(c.vec) THEN "element read is not a piece of this call's own vector (stale buffer contents)"
              ELSE ""
     [] e.ev = "put" -> IF ~Mine(e.g, e.buf) THEN "put of a buffer the call does not own" ELSE ""
     [] e.ev = "ret" ->
